@@ -42,18 +42,15 @@ Print Assumptions C08_generator_partial.
 
 (** use-set-literal: no guard at all. *)
 Theorem C08_set_literal :
-  forall rho e, paren_safe e = true -> paren_safe (rw_set_literal e) = true -> preserves rw_set_literal rho e.
+  forall rho e, parses_as_built e -> parses_as_built (rw_set_literal e) -> in_model (meaning rho e) = true -> preserves rw_set_literal rho e.
 Proof. exact C08_set_literal_all. Qed.
 Print Assumptions C08_set_literal.
 
-(** fix-hasattr-call: law unless `__call__` is set on the instance only (or hasattr has not exactly two arguments). *)
-Theorem C08_hasattr_partial :
-  forall rho e, paren_safe e = true -> paren_safe (rw_hasattr e) = true -> hasattr_guard rho e = true -> preserves rw_hasattr rho e.
-Proof. exact C08_hasattr_all. Qed.
+(** fix-hasattr-call: law unless `__call__` is set on the instance only; the pinned form also rewrites hasattr calls that do
+    not have exactly two arguments (those raise TypeError, `callable(x)` does not). *)
+Theorem C08_hasattr_partial : C08_hasattr_statement hasattr_cfg_v.
+Proof. exact (C08_hasattr_all hasattr_cfg_v). Qed.
 Print Assumptions C08_hasattr_partial.
-Theorem C08_hasattr_refuted : changes rw_hasattr w_hasattr_env w_hasattr.
-Proof. exact C08_hasattr_refuted_w. Qed.
-Print Assumptions C08_hasattr_refuted.
 
 (** Non-vacuity: each guard holds on an input that the kernel really changes. *)
 Definition ex_env : env := [(0%N, VStr (s "xy")); (2%N, VInt 0); (3%N, VStr (s "x")); (4%N, VObj 1 [call_attr] [])].
@@ -78,7 +75,7 @@ Proof. vm_compute. repeat split; try reflexivity. discriminate. Qed.
 (** hasattr(v4, "__call__") with __call__ defined by the class *)
 Example C08_hasattr_example :
   let e := ECall BHasattr [EName 4; call_lit] in
-  hasattr_guard ex_env e = true /\ rw_hasattr e <> e /\ meaning ex_env e = Val (VBool true).
+  hasattr_guard hasattr_cfg_v ex_env e = true /\ rw_hasattr hasattr_cfg_v e <> e /\ meaning ex_env e = Val (VBool true).
 Proof. vm_compute. repeat split; try reflexivity. discriminate. Qed.
 
 (** fix-empty-sequence-comparison (`x == []` -> `not x`, `x != []` -> `bool(x)` / bare `x` as the test of an `if`):
@@ -100,7 +97,7 @@ Proof. vm_compute. repeat split; try reflexivity. discriminate. Qed.
     every rewritten comparison (e.g. None / an object / a type against a display); refuted for `True is 1`
     (the codemod changes the meaning on purpose: class kf_identity_differs). *)
 Theorem C08_identity_partial :
-  forall rho e, paren_safe e = true -> paren_safe (rw_identity e) = true -> identity_guard rho e = true -> preserves rw_identity rho e.
+  forall rho e, parses_as_built e -> parses_as_built (rw_identity e) -> in_model (meaning rho e) = true -> identity_guard rho e = true -> preserves rw_identity rho e.
 Proof. exact C08_identity_all. Qed.
 Print Assumptions C08_identity_partial.
 Theorem C08_identity_refuted : changes rw_identity [] w_id_bool.
